@@ -261,6 +261,10 @@ def install(tap, run):
         if isinstance(est, Vector):
             return "Vector(" + ",".join(describe(c) for c in est.components) + ")"
         name = type(est).__name__
+        if isinstance(est, work.WarpedGridder):
+            return "Warped(" + describe(est.inner) + ")"
+        if isinstance(est, work.ThinStep):
+            return "Thin%d" % est.keep
         if name == "Trend":
             return "Trend%s" % est.degree
         if name == "BlockReduce":
@@ -279,7 +283,7 @@ def install(tap, run):
         return type(est).__name__
 
     def letter(est):
-        """Coarse kind of a step: r BlockReduce, m BlockMean, c nested Chain, v Vector, e VectorSpline2D, g scalar gridder."""
+        """Coarse kind of a step: r BlockReduce, m BlockMean, c nested Chain, v Vector, e VectorSpline2D, g scalar gridder; duck-typed (not BaseGridder): L level step (filter+predict), W warped wrapper (fit/filter/predict), T thinning step (filter only)."""
         if isinstance(est, Chain):
             return "c"
         if isinstance(est, BlockMean):
@@ -288,6 +292,8 @@ def install(tap, run):
             return "r"
         if isinstance(est, Vector):
             return "v"
+        if isinstance(est, work.DUCK_CLASSES):
+            return {"LevelStep": "L", "WarpedGridder": "W", "ThinStep": "T"}[type(est).__name__]
         return "e" if isinstance(est, VectorSpline2D) else "g"
 
     def depth_of(est):
@@ -304,6 +310,8 @@ def install(tap, run):
             return any(contains(s, cls) for _, s in est.steps)
         if isinstance(est, Vector):
             return any(contains(c, cls) for c in est.components)
+        if isinstance(est, work.WarpedGridder):
+            return contains(est.inner, cls)
         return False
 
     def predicts(step):
@@ -407,7 +415,9 @@ def install(tap, run):
         check_params(ev, "filter")
         problems = []
         fits = [k for k in ev.children if k.obj is obj and k.name.endswith(".fit")]
-        if not fits:
+        if not hasattr(obj, "fit"):
+            run.count("filter:step_without_fit_method")  # duck-typed filter+predict step: only its outputs are judged
+        elif not fits:
             problems.append(("filter:not_fitted", "filter did not fit the estimator it belongs to"))
         else:
             if len(fits) > 1:
@@ -567,9 +577,16 @@ def install(tap, run):
                 out.append(("reduction:coordinates_outside", "reduced coordinates leave the region %s of this call's points" % [w, e, s, n]))
         return out
 
+    def post_filter_passthrough(ev):
+        """A harness-defined filter-only step (no predict): nothing of verde's to judge, but its call is part of the chain's tree."""
+        if ev.exc is None:
+            run.count("filter_of:" + type(ev.obj).__name__)
+
     def post_filter(ev):
         if isinstance(ev.obj, BlockReduce):
             post_filter_reduce(ev)
+        elif not predicts(ev.obj):
+            post_filter_passthrough(ev)
         else:
             post_filter_gridder(ev)
 
@@ -632,6 +649,13 @@ def install(tap, run):
         run.count("chain_nesting_depth:%d" % depth_of(chain))
         for s in steps:
             run.seen("step_kinds", kind_of(s))
+        for k, s in enumerate(steps):
+            if isinstance(s, work.DUCK_CLASSES):
+                where = "only" if len(steps) == 1 else "first" if k == 0 else "last" if k == len(steps) - 1 else "middle"
+                run.count("duck_step:%s:%s" % (type(s).__name__, where))
+                run.count("duck_step:position:" + where)
+                if ev.parent is not None:
+                    run.count("duck_step:in_nested_chain")
         if len(steps) >= 2 and any(predicts(s) for s in steps):
             run.mark_nontrivial("chain", desc, given[1], given[2])
         if not order_ok:
@@ -661,7 +685,7 @@ def install(tap, run):
             witness["flow"] = flow_of(filt)
             report("chain_threading", problems, witness)
         # (3) conservation over the steps after the last reduction
-        reductions = [k for k, s in enumerate(steps) if isinstance(s, BlockReduce)]
+        reductions = [k for k, s in enumerate(steps) if not predicts(s)]  # block reductions and duck-typed filter-only steps
         last_red = reductions[-1] if reductions else -1
         seg = filt[last_red + 1:]
         seg_steps = steps[last_red + 1:]
@@ -822,6 +846,10 @@ def install(tap, run):
                         break
         run.evaluated("chain_predict_sum")
         run.count("chain_predict:steps_summed:%d" % len(steps))
+        if any(isinstance(s, work.DUCK_CLASSES) for s in steps):
+            run.count("chain_predict:sum_includes_duck_typed_step")
+            if len(steps) >= 2:
+                run.count("chain_predict:sum_of_duck_typed_and_other_steps")
         if ev.parent is not None:
             run.count("chain_predict:nested")
         if problems:
@@ -955,6 +983,13 @@ def install(tap, run):
     tap.method(BaseGridder, "predict", post=post_predict, subclasses=True)
     tap.method(BaseGridder, "filter", pre=pre_snapshot, post=post_filter, subclasses=True)
     tap.method(BlockReduce, "filter", pre=pre_snapshot, post=post_filter, subclasses=True)
+    # the harness's own duck-typed steps (not BaseGridder): same recording, same oracles
+    tap.method(work.LevelStep, "filter", pre=pre_snapshot, post=post_filter)
+    tap.method(work.LevelStep, "predict", post=post_predict)
+    tap.method(work.WarpedGridder, "fit", pre=pre_snapshot, post=post_fit)
+    tap.method(work.WarpedGridder, "filter", pre=pre_snapshot, post=post_filter)
+    tap.method(work.WarpedGridder, "predict", post=post_predict)
+    tap.method(work.ThinStep, "filter", pre=pre_snapshot, post=post_filter)
 
 
 # ----------------------------------------------------------------------
